@@ -76,6 +76,8 @@ class St:
         self.overflow = False
         self.lossy = False
         self.freed_raw = set()
+        self.fresh = {}          # storage allocated in this function: key -> dict(p, lo, hi, ext, w=[(a,b)], unknown, node)
+        self.iter_cells = []     # cell stores of the current loop iteration: (cpath, row Poly|None, col Poly | (a,b))
 
     def copy(self):
         s = St()
@@ -91,6 +93,8 @@ class St:
         s.overflow = self.overflow
         s.lossy = self.lossy
         s.freed_raw = set(self.freed_raw)
+        s.fresh = {k: dict(v, w=list(v['w'])) for k, v in self.fresh.items()}
+        s.iter_cells = list(self.iter_cells)
         return s
 
     def sig(self):
@@ -98,7 +102,9 @@ class St:
                 tuple(sorted((k, v.sig()) for k, v in self.shapes.items())),
                 tuple(sorted((k, repr(v)) for k, v in self.raw.items())),
                 tuple(sorted(self.alias.items())), tuple(sorted((k, repr(v)) for k, v in self.iter_rows.items())),
-                tuple(sorted(self.freed_raw)))
+                tuple(sorted(self.freed_raw)),
+                tuple(sorted((repr(k), repr(v['w']), v.get('unknown', False)) for k, v in self.fresh.items())),
+                tuple(sorted(set(repr(x) for x in self.iter_cells))))
 
     def add_fact(self, p):
         p = p.subst(self.eqs) if self.eqs else p
@@ -748,12 +754,40 @@ class Engine:
                 sh.ext = Poly.const(0)
                 sh.rows, sh.slots = [], []
             return
+        if ls.get('kind') == 'ArraySubscriptExpr' and '*' not in lt:
+            self.record_cell_store(ls, st)
         if fe.is_float_type(ls) or '*' in lt:
             # raw pointer local = other pointer: lose extent
             if ls.get('kind') == 'DeclRefExpr' and '*' in lt:
                 st.raw.pop(self.vname(ls['referencedDecl']), None)
             return
         self.store_int(l, self.ev(r, st), st)
+
+    def record_cell_store(self, ls, st):
+        """X->data[r][c] = v  /  V->data[c] = v : remember which cells of storage allocated in this function get written"""
+        b = strip(kids(ls)[0])
+        c = self.ev(kids(ls)[1], st)
+        if b.get('kind') == 'ArraySubscriptExpr':
+            bb = strip(kids(b)[0])
+            if bb.get('kind') == 'MemberExpr' and bb.get('name') == 'data':
+                cont = kids(bb)[0]
+                if (ctype_of(cont) if bb.get('isArrow') else self._lv_ctype(cont)) == 'matrix':
+                    p = self.cpath(cont, st) if bb.get('isArrow') else self.cpath_lv(cont, st)
+                    if p:
+                        r = self.ev(kids(b)[1], st)
+                        fk = (p, repr(r), repr(r + 1))
+                        if fk in st.fresh:
+                            st.fresh[fk]['w'].append((c, c + 1))
+                        st.iter_cells.append((p, r, c))
+        elif b.get('kind') == 'MemberExpr' and b.get('name') == 'data':
+            cont = kids(b)[0]
+            ct = ctype_of(cont) if b.get('isArrow') else self._lv_ctype(cont)
+            if ct in ('dvector', 'uivector', 'ivector'):
+                p = self.cpath(cont, st) if b.get('isArrow') else self.cpath_lv(cont, st)
+                if p:
+                    if (p, 'vec') in st.fresh:
+                        st.fresh[(p, 'vec')]['w'].append((c, c + 1))
+                    st.iter_cells.append((p, None, c))
 
     def deep_copy_rule(self, node, l, r, st):
         ls, rs = strip(l), strip(r)
@@ -812,13 +846,27 @@ class Engine:
             p = self.cpath(cont, st) if ls.get('isArrow') else self.cpath_lv(cont, st)
             if ct and p and ls.get('name') == PTR_ARRAY_FIELD.get(ct, 'data'):
                 sh = self.shape(st, p, ct)
+                if ct in ('dvector', 'uivector', 'ivector'):
+                    oldw = [(Poly.const(0), sh.f['size'])] if (realloc and not sh.fresh) else []
+                    if realloc and (p, 'vec') in st.fresh:
+                        oldw = list(st.fresh[(p, 'vec')]['w'])
+                    st.fresh[(p, 'vec')] = {'p': p, 'lo': None, 'hi': None, 'ext': ext, 'w': oldw, 'unknown': False,
+                                            'where': self.f.unit.where(node)}
                 sh.ext = ext
                 sh.freed = False
                 if not realloc:
                     sh.rows, sh.slots = [], []
+                    for k_ in [k_ for k_, v_ in st.fresh.items() if v_['p'] == p and v_['lo'] is not None]:
+                        del st.fresh[k_]
                 return
             if ct and p and ls.get('name') == 'data':
                 sh = self.shape(st, p, ct)
+                if ct in ('dvector', 'uivector', 'ivector'):
+                    oldw = [(Poly.const(0), sh.f['size'])] if (realloc and not sh.fresh) else []
+                    if realloc and (p, 'vec') in st.fresh:
+                        oldw = list(st.fresh[(p, 'vec')]['w'])
+                    st.fresh[(p, 'vec')] = {'p': p, 'lo': None, 'hi': None, 'ext': ext, 'w': oldw, 'unknown': False,
+                                            'where': self.f.unit.where(node)}
                 sh.ext = ext
                 sh.freed = False
                 return
@@ -834,6 +882,23 @@ class Engine:
                 if ct == 'matrix' and p:
                     self.subscript(ls, st)
                     idx = self.ev(kids(ls)[1], st)
+                    shx = self.shape(st, p, 'matrix')
+                    oldw = []
+                    if realloc:
+                        oe = None
+                        fk = (p, repr(idx), repr(idx + 1))
+                        if fk in st.fresh:
+                            oldw = list(st.fresh[fk]['w'])
+                        else:
+                            covering = [v_ for v_ in st.fresh.values() if v_['p'] == p and v_['lo'] is not None and
+                                        prove_nonneg(idx - v_['lo'], st.facts + self.pre, equalities=st.eqs) and
+                                        prove_nonneg(v_['hi'] - idx - 1, st.facts + self.pre, equalities=st.eqs)]
+                            if covering:
+                                oldw = list(covering[-1]['w'])
+                            else:
+                                oldw = [(Poly.const(0), shx.f['col'])]     # an entry row: all cells below col are initialised
+                    st.fresh[(p, repr(idx), repr(idx + 1))] = {'p': p, 'lo': idx, 'hi': idx + 1, 'ext': ext, 'w': oldw, 'unknown': False,
+                                                               'where': self.f.unit.where(node)}
                     st.iter_rows[(p, repr(idx))] = ext
                     sh = self.shape(st, p, 'matrix')
                     sh.rows = [r for r in sh.rows if not (repr(r[0]) == repr(idx) and repr(r[1]) == repr(idx + 1))] + [(idx, idx + 1, ext)]
@@ -853,7 +918,21 @@ class Engine:
         if cn in ('xfree', 'free') and a:
             self.free(e, a[0], st)
             return
+        if st.fresh and hasattr(self.ck, 'cell_effects'):
+            self.ck.cell_effects(self, e, cn, a, st)
         self.ck.apply_call(self, e, cn, a, st)
+
+    def note_cell(self, st, p, r, c):
+        """cell (r,c) / interval c=(a,b) of container p is written (r None: vector)"""
+        iv = c if isinstance(c, tuple) else (c, c + 1)
+        if r is None:
+            if (p, 'vec') in st.fresh:
+                st.fresh[(p, 'vec')]['w'].append(iv)
+        else:
+            fk = (p, repr(r), repr(r + 1))
+            if fk in st.fresh:
+                st.fresh[fk]['w'].append(iv)
+        st.iter_cells.append((p, r, c))
 
     def free(self, node, arg, st):
         s = strip(arg)
@@ -1305,6 +1384,7 @@ class Engine:
             head = st.copy()
             head.iter_rows = {}
             head.iter_slots = {}
+            head.iter_cells = []
             ivar = ind['var'] if ind else None
             range_facts = self.range_facts(loop, st, assigned, ind, line)
             for v in assigned:
@@ -1315,6 +1395,8 @@ class Engine:
                     head.add_fact(mk(head.vals[v]))
             for (p, ct, what) in mods:
                 self.havoc_fields(head, p, ct, what, 'L%d' % line)
+            loop_stores = any((is_assign(x) or is_incdec(x)) and strip(kids(x)[0]).get('kind') == 'ArraySubscriptExpr' or x.get('kind') == 'CallExpr'
+                              for x in walk(loop))
             skip = None
             if ind:
                 ia = '%s@L%d' % (ivar, line)
@@ -1463,7 +1545,15 @@ class Engine:
             for b in fb['brk']:
                 b2 = b.copy()
                 b2.iter_rows, b2.iter_slots = dict(st.iter_rows), dict(st.iter_slots)
+                if b2.fresh and loop_stores:
+                    for v_ in b2.fresh.values():     # earlier iterations' stores are not described in a body state
+                        v_['unknown'] = True
+                b2.iter_cells = list(st.iter_cells)
                 exits.append(b2)
+            if not ind and loop_stores:
+                for e2 in exits:
+                    for v_ in e2.fresh.values():
+                        v_['unknown'] = True
             out_norm += exits
         flows['norm'] = self.merge(out_norm)
         return flows
@@ -1689,6 +1779,7 @@ class Engine:
             sh = post.shapes.get(p)
             if sh is not None:
                 sh.slots = [r for r in sh.slots if '@L%d' % line not in repr(r[0])] + [(ind['init'], post.vals[ind['var']])]
+        self.generalise_cells(ind, ia, after, post, line)
         # a loop whose every iteration cleared a slot of a container with no valid slot leaves all slots NULL
         for p_, sh in post.shapes.items():
             if sh.ctype in ('tensor', 'dvectorlist') and not sh.slots and all(
@@ -1698,6 +1789,126 @@ class Engine:
         for sh in post.shapes.values():
             sh.rows = [r for r in sh.rows if '@L%d' % line not in (repr(r[0]) + repr(r[1]) + repr(r[2]))]
             sh.slots = [r for r in sh.slots if '@L%d' % line not in (repr(r[0]) + repr(r[1]))]
+
+    def generalise_cells(self, ind, ia, after, post, line):
+        """turn per-iteration cell stores / fresh rows into facts about whole index ranges"""
+        A, B = ind['init'], post.vals[ind['var']]
+        if ind['step'] != Poly.const(1) or ind['op'] != '<':
+            for v_ in post.fresh.values():
+                v_['unknown'] = True
+            return
+        iatom = Poly.atom(ia)
+
+        def key_of(rec):
+            p, r, c = rec
+            return (p, repr(r), repr(c) if not isinstance(c, tuple) else (repr(c[0]), repr(c[1])))
+        common = None
+        recs = {}
+        for s2 in after:
+            ks = set()
+            for rec in s2.iter_cells:
+                k_ = key_of(rec)
+                ks.add(k_)
+                recs[k_] = rec
+            common = ks if common is None else common & ks
+        facts = post.facts + self.pre
+        for k_ in sorted(common or (), key=repr):
+            p, r, c = recs[k_]
+            c_has = (not isinstance(c, tuple)) and ia in c.atoms()
+            r_has = r is not None and ia in r.atoms()
+            if not isinstance(c, tuple) and c == iatom and not r_has:
+                # column loop: cells [A,B) of row r (or of the vector) are written
+                if r is None:
+                    if (p, 'vec') in post.fresh:
+                        post.fresh[(p, 'vec')]['w'].append((A, B))
+                else:
+                    fk = (p, repr(r), repr(r + 1))
+                    if fk in post.fresh:
+                        post.fresh[fk]['w'].append((A, B))
+                post.iter_cells.append((p, r, (A, B)))
+            elif r is not None and r == iatom and not c_has and not (isinstance(c, tuple) and (ia in c[0].atoms() or ia in c[1].atoms())):
+                # row loop: the interval is written in every row of [A,B)
+                iv = c if isinstance(c, tuple) else (c, c + 1)
+                for fk, v_ in post.fresh.items():
+                    if v_['p'] != p or v_['lo'] is None:
+                        continue
+                    if prove_nonneg(v_['lo'] - A, facts, equalities=post.eqs) and prove_nonneg(B - v_['hi'], facts, equalities=post.eqs):
+                        v_['w'].append(iv)
+        # fresh per-iteration rows (lo == loop atom) become a segment [A,B) when every iteration wrote the same intervals
+        keys = set()
+        for s2 in after:
+            keys |= {k_ for k_, v_ in s2.fresh.items() if v_['lo'] is not None and v_['lo'] == iatom}
+        for k_ in sorted(keys, key=repr):
+            holders = [s2 for s2 in after if k_ in s2.fresh]
+            ref = max((s2.fresh[k_] for s2 in holders), key=lambda v_: len(v_['w']))
+            agree = len(holders) == len(after)
+            refset = {repr(iv_) for iv_ in ref['w']}
+            for s2 in holders:
+                cur = s2.fresh[k_]
+                curset = {repr(iv_) for iv_ in cur['w']}
+                if repr(cur['ext']) != repr(ref['ext']) or cur['where'] != ref['where'] or not curset <= refset:
+                    agree = False
+                    break
+                for a_, b_ in ref['w']:
+                    # an interval this path did not write must be empty on this path (a zero-trip inner loop)
+                    if repr((a_, b_)) not in curset and not prove_nonneg(a_ - b_, s2.facts + self.pre, equalities=s2.eqs):
+                        agree = False
+                        break
+                if not agree:
+                    break
+            w = ref['w']
+            if any(ia in a_.atoms() or ia in b_.atoms() for a_, b_ in w) or ia in ref['ext'].atoms():
+                agree = False
+                w = []
+            nk = (ref['p'], repr(A), repr(B))
+            post.fresh[nk] = {'p': ref['p'], 'lo': A, 'hi': B, 'ext': ref['ext'], 'w': list(w) if agree else [], 'unknown': not agree,
+                              'where': ref['where']}
+        # entries that still mention the loop atom cannot be described after the loop
+        for k_ in [k_ for k_, v_ in post.fresh.items() if v_['lo'] is not None and (ia in v_['lo'].atoms())]:
+            del post.fresh[k_]
+        post.iter_cells = [rec for rec in post.iter_cells if ia not in repr(rec)]
+
+    def written_gaps(self, st, v_, upto, live=()):
+        """is [0, upto) covered by the written intervals of a fresh entry?  -> ('proved'|'refuted'|'undecided', witness)"""
+        facts = st.facts + self.pre
+        cover = Poly.const(0)
+        progress = True
+        while progress:
+            progress = False
+            for a_, b_ in v_['w']:
+                if repr(b_) != repr(cover) and prove_nonneg(cover - a_, facts, equalities=st.eqs) and prove_nonneg(b_ - cover, facts, equalities=st.eqs):
+                    cover = b_
+                    progress = True
+        if prove_nonneg(cover - upto, facts, equalities=st.eqs):
+            return 'proved', None
+        if st.lossy or v_.get('unknown'):
+            return 'undecided', None
+        extra = [upto - 1] + list(live)
+        if v_['lo'] is not None:
+            extra.append(v_['hi'] - v_['lo'] - 1)
+
+        def accept(val):
+            # concrete coverage under the valuation
+            try:
+                iv = sorted((a_.eval(val), b_.eval(val)) for a_, b_ in v_['w'])
+                need = upto.eval(val)
+            except KeyError:
+                return False
+            cur = 0
+            for a1, b1 in iv:
+                if a1 <= cur:
+                    cur = max(cur, b1)
+            return cur < need
+        atoms = set(upto.atoms())
+        for a_, b_ in v_['w']:
+            atoms |= a_.atoms() | b_.atoms()
+        if any(x.startswith('?') for x in atoms):
+            return 'undecided', None
+        w = find_witness(upto - 1, facts + extra, dom=self.dom, opaque=lambda x: x.startswith('?') or x.startswith('sizeof'),
+                         accept=accept, must_atoms=atoms)
+        if isinstance(w, dict):
+            return 'refuted', w
+        return 'undecided', None
 
     def induction(self, loop, st):
         ind = flow.induction(loop)
